@@ -24,7 +24,15 @@
 #include "TFEL/Math/QR/QRDecomp.hxx"
 
 using namespace tfel::math;
-constexpr unsigned short NMAX = 12;
+// the harness is compiled in several parts (in parallel): a part serves the fixed sizes
+// C07_NLO..C07_NHI, and the runtime-sized entry points (lu, lusolve, qr) when C07_DYNAMIC is defined
+#ifndef C07_NLO
+#define C07_NLO 1
+#define C07_NHI 12
+#define C07_DYNAMIC
+#endif
+constexpr unsigned short NMIN = C07_NLO;
+constexpr unsigned short NMAX = C07_NHI;
 
 static bool parse_hex(const std::string& s, double& x) {
   if (s.size() != 16) return false;
@@ -159,6 +167,7 @@ static std::string tiny_dispatch(const Request& r) {
   }
 }
 
+#ifdef C07_DYNAMIC
 static std::string lu(const Request& r) {
   const auto n = r.n;
   matrix<double> m(n, n);
@@ -221,6 +230,8 @@ static std::string qr(const Request& r) {
   return os.str();
 }
 
+#endif /* C07_DYNAMIC */
+
 int main() {
   std::string line;
   while (std::getline(std::cin, line)) {
@@ -254,17 +265,18 @@ int main() {
       std::cout << "bad-op\n";
       continue;
     }
-    std::string a;
+    std::string a = "bad-op";
+#ifdef C07_DYNAMIC
     if (r.op == "lu") {
       a = lu(r);
     } else if (r.op == "lusolve") {
       a = lusolve(r);
     } else if (r.op == "qr") {
       a = qr(r);
-    } else if (r.n <= NMAX) {
-      a = tiny_dispatch<1>(r);
-    } else {
-      a = "bad-op";
+    } else
+#endif /* C07_DYNAMIC */
+    if (r.n >= NMIN && r.n <= NMAX) {
+      a = tiny_dispatch<NMIN>(r);
     }
     std::cout << a << "\n";
   }
